@@ -291,6 +291,16 @@ class Engine(ExprMixin, StmtMixin, CallMixin, PrimMixin, NumpyMixin):
             raise SpecError("unknown type %r for %s" % (ty, name))
 
 
+def split_mod(m):
+    """'self.dmin' -> ('self','dmin');  "self['wsort']" -> ('self','wsort');  'data' -> ('data', '')"""
+    m = m.strip()
+    if "[" in m and m.endswith("]"):
+        base, _, key = m.partition("[")
+        return base, ast.literal_eval(key[:-1])
+    base, _, fld = m.partition(".")
+    return base, fld
+
+
 def _split_types(s):
     out, depth, cur = [], 0, ""
     for ch in s:
@@ -323,6 +333,10 @@ def _verify_function(self, cname):
     t0 = time.time()
     nstart = len(self.obls)
     self.cur_func = cname
+    self.abstract = tuple(c.abstract)
+    if c.abstract:
+        self.assumptions_used.add("in %s the operations %s are uninterpreted functions (sound abstraction: the proof uses no property of them)"
+                                  % (cname, ", ".join(c.abstract)))
     info = dict(function=cname, paths=0, exits=0, raises=0, status="ok", error=None, cover=None)
     try:
         if c.lang == "c":
@@ -421,7 +435,7 @@ def _verify_variant(self, f, c, var, vi, info):
         # everything reachable from parameters is non-fresh; what may be modified is listed by the contract
         fr.modifiable = {}
         for m in c.modifies:
-            base, _, fld = m.partition(".")
+            base, fld = split_mod(m)
             tgt = env.get(base)
             if isinstance(tgt, Ref):
                 h = st.get(tgt)
